@@ -71,6 +71,22 @@ CHECKS = {
          "Exploration: ~4 k (quick) / 60 k (thorough) states per build, every one fenced in both placements and compared on all 2x729 words with 81 rounds of the round function per lane; the routine has no data-dependent control flow or addresses, so each fenced execution observes every access it can make.",
          "Trusts the per-lane model (self-tested against the Curl-P truth table and oracle/curlp). The fence sees accesses within 1 MiB of a buffer; amd64 only.",
          "DESIGN.md §3 C20"),
+ "C04": ("runtime monitor: two-sided Decode verdict and outputs judged by an independent BIP-173 port; re-encode fixed point; error-offset range and panic monitors on hostile byte strings",
+         "Exploration: ~3.9 M (quick) / 340 M (thorough) strings: model-encoded arbitrary 5-bit symbol sequences of every length and padding pattern, case variants, byte substitutions 0..255, insertions/deletions, truncations, separator anomalies, runes whose case mapping changes byte length, invalid UTF-8, random bytes.",
+         "Trusts harness/oracle/bech32m (self-tested on the BIP-173 valid/invalid strings and segwit regrouping vectors). Case is ASCII-only as in BIP-173. Error kinds and exact offsets are not asserted, only 0 <= Offset <= len(input).",
+         "DESIGN.md §3 C04"),
+ "C05": ("runtime monitor: Encode output compared with an independent BIP-173 encoder, Decode inversion, success-domain monitor",
+         "Exploration: ~0.74 M (quick) / 78 M (thorough) (hrp, data) pairs over every data length 0..51, totals on both sides of the 90-character limit, every hrp case class and invalid hrps.",
+         "Trusts harness/oracle/bech32m. Error ordering is not asserted.",
+         "DESIGN.md §3 C05"),
+ "C16": ("runtime monitor in three layers: exhaustive weight-1/2 substitutions and sampled weight-3/4 through Decode; exhaustive checksum-syndrome table recorded from the real polymod (hook) with an offline meet-in-the-middle checker whose hits are confirmed through Decode",
+         "Exploration with exhaustive parts: ~12 M (quick) / 600 M (thorough) corrupted strings decoded; syndromes sigma(j,v) for all distances j <= 88 and symbols v recorded from the real code, ~3.8 M single/pair sums searched for collisions (covers every pattern of weight <= 4 for every length <= 90).",
+         "Trusts harness/oracle/bech32m for building valid strings; the syndrome layer judges the polymod the hook exposes, layers (a)/(b) observe that Decode uses it.",
+         "DESIGN.md §3 C16"),
+ "C19": ("runtime monitor: ParseBech32 verdict table over model-built strings (every version byte, payload lengths 0..50, known/unknown/upper/mixed prefixes), canonicity; migration decoder two-sided against an own b1t6/BLAKE2b model incl. all single-tryte substitutions",
+         "Exploration: ~1.4 M (quick) / 180 M (thorough) cases.",
+         "Trusts harness/oracle/bech32m, BLAKE2b (x/crypto) and the b1t6 model inside prop/c19 (self-tested).",
+         "DESIGN.md §3 C19"),
 }
 
 NOT_BUILT_REASON = "check not built yet in this round (planned in DESIGN.md §3; runtime monitoring does apply)"
